@@ -94,20 +94,21 @@ EffQ(S, e, dr, fl) ==
     [] e.k = "price" -> PriceEff(Z(S), e.sym, e.p)
 R(v, k) == [v |-> v, k |-> k]
 \* compare the logged post-state with the intended effect; name the deviation when it is one of the quirks
-Both(S, e, P) ==
+Both(S, e, P, pk) ==
   LET tag == Tag(S, e)
       dup == IsDup(S, e)
       d == Diff(EffQ(S, e, FALSE, FALSE), P, dup)
-      pc == IF pok THEN PostChecks(e.post, P) ELSE "ok"
+      pc == IF pk THEN PostChecks(e.post, P) ELSE "ok"
   IN IF d = "ok" THEN (IF pc = "ok" THEN R("ok", "") ELSE R(tag \o ":" \o pc, ""))
      ELSE IF Diff(EffQ(S, e, TRUE, FALSE), P, dup) = "ok" THEN R("ok", e.k \o ":sell-sum-released-twice")
      ELSE IF DiffFlip(EffQ(S, e, FALSE, TRUE), P, dup) = "ok" THEN R("ok", e.k \o ":position-flips-short")
      ELSE IF DiffFlip(EffQ(S, e, TRUE, TRUE), P, dup) = "ok" THEN R("ok", e.k \o ":sell-sum-released-twice+position-flips-short")
      ELSE R(tag \o ":" \o d, "")
 
-Judge(S, e) ==
+Judge(S, e, pk) ==
   LET P == FromLog(e.post) IN
-  IF e.exc # "none" THEN R(e.k \o ":raises:" \o e.exc, "")
+  IF ~WellFormed(S) THEN R(e.k \o ":ill-formed-pre-state", "")
+  ELSE IF e.exc # "none" THEN R(e.k \o ":raises:" \o e.exc, "")
   ELSE IF ~WellFormed(P) THEN R(e.k \o ":unknown-order-in-registries", "")
   ELSE IF Len(e.post.off) > 0 /\ Proj = "acct" THEN R(e.k \o ":value-off-the-lattice:" \o e.post.off[1], "")
   ELSE IF e.k \in {"cancel", "exec"} /\ e.id \notin 1..Len(S.ord) THEN R(e.k \o ":unknown-order", "")
@@ -121,11 +122,17 @@ Judge(S, e) ==
          IN IF mustReject /\ e.acc /\ ~explained THEN R("submit/" \o OTag(o) \o ":accepted-over-balance", "")
             ELSE IF ~mustReject /\ ~e.acc /\ ~explained THEN R("submit/" \o OTag(o) \o ":rejected-within-balance", "")
             ELSE IF ~e.acc THEN R("ok", k)
-            ELSE LET b == Both(S, e, P) IN R(b.v, IF k # "" THEN k ELSE b.k)
+            ELSE LET b == Both(S, e, P, pk) IN R(b.v, IF k # "" THEN k ELSE b.k)
   ELSE IF e.k = "submit" /\ ~e.acc THEN R("ok", "")
-  ELSE IF e.k \in {"submit", "cancel", "exec", "flush", "cancelall", "prune", "price"} THEN Both(S, e, P)
+  ELSE IF e.k \in {"submit", "cancel", "exec", "flush", "cancelall", "prune", "price"} THEN Both(S, e, P, pk)
   ELSE R("log:unknown-event", "")
 
+\* in-vivo traces (hdr.haspre): other things happen between two order calls, so every event carries the state
+\* observed before the call; object-level traces use the previous logged post-state
+HasPre == "haspre" \in DOMAIN Traces[tid].hdr /\ Traces[tid].hdr.haspre
+\* (e.sp: the logged pre-state is identical to the previous logged post-state and is not repeated in the file)
+PreOf(e) == IF HasPre /\ ~e.sp THEN FromLog(e.pre) ELSE st
+PokOf(e) == IF HasPre /\ ~e.sp THEN WellFormed(FromLog(e.pre)) /\ PostChecks(e.pre, FromLog(e.pre)) = "ok" ELSE pok
 InitOK == WellFormed(FromLog(Traces[tid].init))
 TInit == /\ tid \in 1..Len(Traces) /\ l = 1 /\ hist = <<>> /\ known = {}
          /\ st = FromLog(Traces[tid].init)
@@ -134,13 +141,13 @@ TInit == /\ tid \in 1..Len(Traces) /\ l = 1 /\ hist = <<>> /\ known = {}
                        ELSE IF Traces[tid].hdr.judgeinit /\ PostChecks(Traces[tid].init, FromLog(Traces[tid].init)) # "ok"
                             THEN "init:" \o PostChecks(Traces[tid].init, FromLog(Traces[tid].init)) ELSE "ok")
 TStep == /\ verdict = "ok" /\ l <= Len(Ev(tid))
-         /\ LET e == Ev(tid)[l]  j == Judge(st, e) IN
+         /\ LET e == Ev(tid)[l]  j == Judge(PreOf(e), e, PokOf(e)) IN
               /\ verdict' = j.v
               /\ known' = IF j.k = "" THEN known ELSE known \cup {j.k}
               /\ st' = FromLog(e.post)
               /\ pok' = ((e.k # "submit" \/ e.acc) /\ WellFormed(FromLog(e.post)) /\ PostChecks(e.post, FromLog(e.post)) = "ok")
          \* a short spot position is outside the domain of the reference account: the trace ends there
-         /\ l' = (IF Judge(st, Ev(tid)[l]).k \in {e.k \o ":position-flips-short" : e \in {Ev(tid)[l]}}
+         /\ l' = (IF Judge(PreOf(Ev(tid)[l]), Ev(tid)[l], PokOf(Ev(tid)[l])).k \in {e.k \o ":position-flips-short" : e \in {Ev(tid)[l]}}
                     \cup {e.k \o ":sell-sum-released-twice+position-flips-short" : e \in {Ev(tid)[l]}}
                   THEN Len(Ev(tid)) + 1 ELSE l + 1)
          /\ UNCHANGED <<tid, hist>>
